@@ -4,6 +4,7 @@ import (
 	"fmt"
 	"go/constant"
 	"go/token"
+	"go/types"
 	"strings"
 
 	"golang.org/x/tools/go/ssa"
@@ -201,6 +202,13 @@ func runC18(c *Ctx) {
 				if v, s, k := ErrNilTest(g.If); k && CallResult(v, 1, ms) != nil && g.Succ == s {
 					ok = true
 				}
+				// errors.Is(<error of the selection>, sentinel) holds only for a non-nil error
+				cond, trueSucc := BoolTest(g.If)
+				if call, isCall := cond.(*ssa.Call); isCall && CalleeName(call.Common()) == "errors.Is" && g.Succ == trueSucc {
+					if CallResult(call.Call.Args[0], 1, ms) != nil {
+						ok = true
+					}
+				}
 			}
 			c.Check("C18.F", "fallback:only-when-no-user-match", p, sh.Pos(), ok, "the shared lookup runs only on the error branch of the per-user selection (never when the user has a match, even a dead one)", "the shared backends are consulted although the user has a matching backend of their own (or before the user's own backends)")
 			c.ArgIs("C18.F", "fallback:same-path", p, sh, 2, "the shared lookup uses the same path", P(f, 3))
@@ -248,8 +256,12 @@ func runC18(c *Ctx) {
 			case *ssa.Range:
 				bad = "ranges over a map/string (iteration order)"
 			case *ssa.UnOp:
-				if _, isG := x.X.(*ssa.Global); isG {
-					bad = "reads a package variable"
+				if g, isG := x.X.(*ssa.Global); isG {
+					// a sentinel error (var errX = errors.New(…)) is a constant in all but name
+					pt, _ := g.Type().Underlying().(*types.Pointer)
+					if pt == nil || pt.Elem().String() != "error" || !sentinelError(p, g) {
+						bad = "reads a package variable"
+					}
 				}
 			case *ssa.Go, *ssa.Defer, *ssa.Send, *ssa.Select, *ssa.MakeClosure:
 				bad = "uses " + strings.TrimPrefix(fmt.Sprintf("%T", x), "*ssa.")
@@ -473,4 +485,31 @@ func phiWeb(ph *ssa.Phi) map[*ssa.Phi]bool {
 	}
 	rec(ph)
 	return web
+}
+
+// sentinelError: the package variable is assigned once, in its package's initialiser, from
+// errors.New / fmt.Errorf, and never stored to again.
+func sentinelError(p *Prog, g *ssa.Global) bool {
+	n, ok := 0, true
+	for _, fn := range p.AllFuncs {
+		EachInstrRaw(fn, func(i ssa.Instruction) {
+			st, isSt := i.(*ssa.Store)
+			if !isSt || st.Addr != ssa.Value(g) {
+				return
+			}
+			n++
+			if fn.Name() != "init" || fn.Parent() != nil {
+				ok = false
+				return
+			}
+			v := st.Val
+			if mi, isMI := v.(*ssa.MakeInterface); isMI {
+				v = mi.X
+			}
+			if CallResult(v, 0, "errors.New", "fmt.Errorf") == nil {
+				ok = false
+			}
+		})
+	}
+	return ok && n == 1
 }
